@@ -8,7 +8,7 @@ Section NodeInd.
   Variable P : node -> Prop.
   Hypothesis HPath : forall id g, P (NPath id g).
   Hypothesis HLoad : forall g body, Forall P body -> P (NLoad g body).
-  Hypothesis HList : forall g body, Forall P body -> P (NListFile g body).
+  Hypothesis HList : forall y g body, Forall P body -> P (NListFile y g body).
   Hypothesis HInline : forall body, Forall P body -> P (NInline body).
   Hypothesis HBad : P NBad.
 
@@ -21,7 +21,7 @@ Section NodeInd.
     match n with
     | NPath id g => HPath id g
     | NLoad g body => HLoad g body (all body)
-    | NListFile g body => HList g body (all body)
+    | NListFile y g body => HList y g body (all body)
     | NInline body => HInline body (all body)
     | NBad => HBad
     end.
@@ -96,6 +96,7 @@ Qed.
    What the code computes is a pure function of the base directory (pure_node, the code's behaviour with
    the state threaded away), and the state comes back untouched. *)
 Section Main.
+  Variable fxs : fixes.
   Variable files : list str.
 
   Fixpoint pure_node (base : str) (n : node) : res (list item) :=
@@ -104,10 +105,12 @@ Section Main.
         if present files base given then Ok [(id, given, base, join base given)] else Err
     | NLoad given body =>
         if present files base given then spec_list pure_node (dir_of base given) body else Err
-    | NListFile given body =>
+    | NListFile yaml_ok given body =>
         if present files base given then
           let d := dir_of base given in
-          if present files d given then spec_list pure_node (dir_of d given) body else Err
+          if yaml_ok && negb (fx_lf fxs) then
+            (if present files d given then spec_list pure_node (dir_of d given) body else Err)
+          else spec_list pure_node d body
         else Err
     | NInline body => spec_list pure_node base body
     | NBad => Err
@@ -117,7 +120,7 @@ Section Main.
     if present files cwd0 top then spec_list pure_node (dir_of cwd0 top) body else Err.
 
   Definition node_ok (n : node) : Prop :=
-    forall s, is_abs (cwd s) = true -> run_node files n s = (s, pure_node (cwd s) n).
+    forall s, is_abs (cwd s) = true -> run_node fxs files n s = (s, pure_node (cwd s) n).
 
   Lemma open_fr_spec s g :
     open_fr files s g = if present files (cwd s) g then Ok (cwd s, join (cwd s) g) else Err.
@@ -125,7 +128,7 @@ Section Main.
 
   Lemma seq_ok body : Forall node_ok body ->
     forall s, is_abs (cwd s) = true ->
-      seq_nodes (run_node files) body s = (s, spec_list pure_node (cwd s) body).
+      seq_nodes (run_node fxs files) body s = (s, spec_list pure_node (cwd s) body).
   Proof.
     induction 1 as [|n l Hn _ IH]; intros s Hs; simpl; [reflexivity|].
     rewrite (Hn s Hs). destruct (pure_node (cwd s) n); [|reflexivity].
@@ -134,11 +137,11 @@ Section Main.
 
   Lemma each_ok a body : Forall node_ok body -> is_abs a = true ->
     forall s, is_abs (cwd s) = true ->
-      each_in_bracket (run_node files) a body s
+      each_in_bracket (run_node fxs files) a body s
       = (s, spec_list pure_node (normpath (dirname a)) body).
   Proof.
     intros HF Ha. induction HF as [|n l Hn _ IH]; intros s Hs; simpl; [reflexivity|].
-    rewrite (bracket_some _ (run_node files n) (fun c => pure_node c n) a s Hn Ha).
+    rewrite (bracket_some _ (run_node fxs files n) (fun c => pure_node c n) a s Hn Ha).
     destruct (pure_node (normpath (dirname a)) n); [|reflexivity].
     rewrite (IH s Hs). reflexivity.
   Qed.
@@ -157,16 +160,29 @@ Section Main.
       rewrite (bracket_some _ _ (fun c => spec_list pure_node c body) _ s);
         [reflexivity| |exact Ha].
       intros s' Hs'. apply seq_ok; assumption.
-    - (* NListFile *) intros g body HF s Hs. simpl run_node. rewrite open_fr_spec. simpl pure_node.
-      destruct (present files (cwd s) g); [|reflexivity].
+    - (* NListFile *) intros y g body HF s Hs. simpl run_node. rewrite open_fr_spec. simpl pure_node.
+      destruct (present files (cwd s) g) eqn:Hp; [|reflexivity].
       assert (Ha : is_abs (join (cwd s) g) = true) by (apply join_abs; exact Hs).
-      rewrite (bracket_some _ (fun s' => (s', Ok tt)) (fun _ => Ok tt) _ s); [|reflexivity|exact Ha].
-      rewrite (bracket_some _ (fun s' => (s', @Err unit)) (fun _ => Err) _ s); [|reflexivity|exact Ha].
-      rewrite (bracket_some _ _ (fun c => if present files c g
-                                         then spec_list pure_node (dir_of c g) body else Err) _ s);
-        [reflexivity| |exact Ha].
-      intros s' Hs'. rewrite open_fr_spec. destruct (present files (cwd s') g); [|reflexivity].
-      apply each_ok; [exact HF| |exact Hs']. apply join_abs; exact Hs'.
+      assert (Hfb : forall s', is_abs (cwd s') = true ->
+                (match open_fr files s' g with
+                 | Ok (_, a2) => each_in_bracket (run_node fxs files) a2 body s'
+                 | Err => (s', Err)
+                 end) = (s', if present files (cwd s') g
+                             then spec_list pure_node (dir_of (cwd s') g) body else Err)).
+      { intros s' Hs'. rewrite open_fr_spec. destruct (present files (cwd s') g); [|reflexivity].
+        apply each_ok; [exact HF| |exact Hs']. apply join_abs; exact Hs'. }
+      destruct y; cbn [andb].
+      + rewrite (bracket_some _ (fun s' => (s', Ok tt)) (fun _ => Ok tt) _ s); [|reflexivity|exact Ha].
+        rewrite (bracket_some _ (fun s' => (s', @Err unit)) (fun _ => Err) _ s); [|reflexivity|exact Ha].
+        destruct (fx_lf fxs); cbn [negb].
+        * rewrite (Hfb s Hs), Hp. reflexivity.
+        * rewrite (bracket_some _ _ (fun c => if present files c g
+                                             then spec_list pure_node (dir_of c g) body else Err) _ s);
+            [reflexivity|exact Hfb|exact Ha].
+      + rewrite (bracket_some _ (fun s' => (s', @Err unit)) (fun _ => Err) _ s); [|reflexivity|exact Ha].
+        rewrite (bracket_none _ _ (fun c => if present files c g
+                                           then spec_list pure_node (dir_of c g) body else Err) s);
+          [rewrite Hp; reflexivity|exact Hfb|exact Hs].
     - (* NInline *) intros body HF s Hs. simpl run_node. simpl pure_node.
       rewrite (bracket_none _ _ (fun c => spec_list pure_node c body) s);
         [reflexivity| |exact Hs].
@@ -175,7 +191,7 @@ Section Main.
   Qed.
 
   Lemma run_top_pure : forall s top body, is_abs (cwd s) = true ->
-    run_top files s top body = (s, pure_top (cwd s) top body).
+    run_top fxs files s top body = (s, pure_top (cwd s) top body).
   Proof.
     intros s top body Hs. unfold run_top, pure_top. rewrite open_fr_spec.
     destruct (present files (cwd s) top); [|reflexivity].
@@ -200,47 +216,72 @@ Section Main.
   Qed.
 
   Lemma pure_is_spec : forall n base,
-    lf_guard files base n = true -> pure_node base n = spec_node files base n.
+    lf_guard files (fx_lf fxs) base n = true -> pure_node base n = spec_node files base n.
   Proof.
-    apply (node_ind2 (fun n => forall base, lf_guard files base n = true ->
+    apply (node_ind2 (fun n => forall base, lf_guard files (fx_lf fxs) base n = true ->
                                  pure_node base n = spec_node files base n)).
     - reflexivity.
     - intros g body HF base H. simpl in *. destruct (present files base g); [|reflexivity].
       simpl in H. apply spec_list_ext.
-      apply (guard_list _ (lf_guard files (dir_of base g))); [|exact H].
+      apply (guard_list _ (lf_guard files (fx_lf fxs) (dir_of base g))); [|exact H].
       rewrite Forall_forall in *. intros n Hn. apply HF. exact Hn.
-    - intros g body HF base H. simpl in *. destruct (present files base g); [|reflexivity].
+    - intros y g body HF base H. simpl in *. destruct (present files base g); [|reflexivity].
       simpl in H. apply andb_true_iff in H. destruct H as [H H3].
-      apply andb_true_iff in H. destruct H as [H1 H2].
-      rewrite H1. apply str_eqb_spec in H2. rewrite H2.
-      apply spec_list_ext.
-      apply (guard_list _ (lf_guard files (dir_of base g))); [|exact H3].
-      rewrite Forall_forall in *. intros n Hn. apply HF. exact Hn.
+      assert (X : spec_list pure_node (dir_of base g) body = spec_list (spec_node files) (dir_of base g) body).
+      { apply spec_list_ext.
+        apply (guard_list _ (lf_guard files (fx_lf fxs) (dir_of base g))); [|exact H3].
+        rewrite Forall_forall in *. intros n Hn. apply HF. exact Hn. }
+      destruct y; cbn [andb]; [|exact X].
+      destruct (fx_lf fxs); cbn [negb]; [exact X|].
+      simpl in H. apply andb_true_iff in H. destruct H as [H1 H2].
+      rewrite H1. apply str_eqb_spec in H2. rewrite H2. exact X.
     - intros body HF base H. simpl in *. apply spec_list_ext.
-      apply (guard_list _ (lf_guard files base)); [|exact H].
+      apply (guard_list _ (lf_guard files (fx_lf fxs) base)); [|exact H].
       rewrite Forall_forall in *. intros n Hn. apply HF. exact Hn.
     - reflexivity.
   Qed.
 
   Lemma run_top_ok : forall s top body, is_abs (cwd s) = true ->
-    tree_guard files (cwd s) top body = true ->
-    run_top files s top body = (s, spec_top files (cwd s) top body).
+    tree_guard files (fx_lf fxs) (cwd s) top body = true ->
+    run_top fxs files s top body = (s, spec_top files (cwd s) top body).
   Proof.
     intros s top body Hs Hg. rewrite (run_top_pure s top body Hs). f_equal.
     unfold pure_top, spec_top. unfold tree_guard in Hg.
     destruct (present files (cwd s) top); [|reflexivity]. simpl in Hg.
     apply spec_list_ext.
-    apply (guard_list _ (lf_guard files (dir_of (cwd s) top))); [|exact Hg].
+    apply (guard_list _ (lf_guard files (fx_lf fxs) (dir_of (cwd s) top))); [|exact Hg].
     apply Forall_forall. intros n _. apply pure_is_spec.
   Qed.
 
   Lemma run_node_ok : forall n s, is_abs (cwd s) = true ->
-    lf_guard files (cwd s) n = true ->
-    run_node files n s = (s, spec_node files (cwd s) n).
+    lf_guard files (fx_lf fxs) (cwd s) n = true ->
+    run_node fxs files n s = (s, spec_node files (cwd s) n).
   Proof.
     intros n s Hs Hg. rewrite (run_node_pure n s Hs). f_equal. apply pure_is_spec. exact Hg.
   Qed.
 End Main.
+
+(* with the list-file repair every tree is inside the guard *)
+Lemma lf_guard_fixed files : forall n base, lf_guard files true base n = true.
+Proof.
+  apply (node_ind2 (fun n => forall base, lf_guard files true base n = true)); simpl; intros; try reflexivity.
+  - apply orb_true_iff. right. apply forallb_forall. intros n Hn. rewrite Forall_forall in H. apply H. exact Hn.
+  - apply orb_true_iff. right. apply forallb_forall. intros n Hn. rewrite Forall_forall in H. apply H. exact Hn.
+  - apply forallb_forall. intros n Hn. rewrite Forall_forall in H. apply H. exact Hn.
+Qed.
+
+Lemma tree_guard_fixed files cwd0 top body : tree_guard files true cwd0 top body = true.
+Proof.
+  unfold tree_guard. apply orb_true_iff. right. apply forallb_forall. intros n _. apply lf_guard_fixed.
+Qed.
+
+Lemma run_top_repaired : forall fxs files s top body,
+  fx_lf fxs = true -> is_abs (cwd s) = true ->
+  snd (run_top fxs files s top body) = spec_top files (cwd s) top body.
+Proof.
+  intros fxs files s top body L H.
+  rewrite (run_top_ok fxs files s top body H); [reflexivity|]. rewrite L. apply tree_guard_fixed.
+Qed.
 
 (* ---- what breaks without the `finally`: the bracket written as plain sequencing ------------------ *)
 (* (used only to show that the restoration theorem is not vacuous) *)
